@@ -16,6 +16,7 @@ import (
 	"os"
 	"path/filepath"
 	"runtime"
+	"strconv"
 	"strings"
 	"sync"
 	"sync/atomic"
@@ -543,4 +544,45 @@ func WaitNoNewMangosGoroutines(base map[string]bool, d time.Duration) []string {
 		}
 		time.Sleep(10 * time.Millisecond)
 	}
+}
+
+// OwnsListeningPort reports whether this very process has a TCP socket in LISTEN state on the
+// given port (via /proc): an address that cannot be bound again is a leak of ours only then —
+// otherwise an unrelated process took the port after it was freed.
+func OwnsListeningPort(port int) bool {
+	inodes := map[string]bool{}
+	for _, f := range []string{"/proc/self/net/tcp", "/proc/self/net/tcp6"} {
+		b, err := os.ReadFile(f)
+		if err != nil {
+			continue
+		}
+		for _, line := range strings.Split(string(b), "\n")[1:] {
+			fs := strings.Fields(line)
+			if len(fs) < 10 || fs[3] != "0A" {
+				continue
+			}
+			i := strings.LastIndex(fs[1], ":")
+			if i < 0 {
+				continue
+			}
+			if p, err := strconv.ParseInt(fs[1][i+1:], 16, 32); err == nil && int(p) == port {
+				inodes[fs[9]] = true
+			}
+		}
+	}
+	if len(inodes) == 0 {
+		return false
+	}
+	ents, err := os.ReadDir("/proc/self/fd")
+	if err != nil {
+		return true // cannot tell: assume ours
+	}
+	for _, e := range ents {
+		if l, err := os.Readlink("/proc/self/fd/" + e.Name()); err == nil && strings.HasPrefix(l, "socket:[") {
+			if inodes[strings.TrimSuffix(strings.TrimPrefix(l, "socket:["), "]")] {
+				return true
+			}
+		}
+	}
+	return false
 }
